@@ -10,7 +10,7 @@ use chumsky::prelude::*;
 
 pub const ID: &str = "C11";
 
-pub const RULE: &str = "cases = (grammar with memoized() at a random subset of nodes, input). Transparency: C01/C02-class grammars g (with validate emitters in half of the cases, no context / state) and a random subset S of their nodes wrapped in .memoized(), placement weights favouring nested placements (x.memoized() directly inside a memoized node and at its first position), both operands of then / or, memoized nodes inside repetition items, under lookahead and inside recursion; plus templates (each placement shape) x all strings over {a,b,c} up to length L, plus statically typed (non-boxed) templates incl. nested memoized().memoized(), a memoized parser at the first position of another memoized parser, and distinct zero-sized memoized parsers. Oracle (differential): memo(g, S) and g must agree on has_output, output, the number of errors and every error (span, found, expected set, message, contexts), for parse and check. Left recursion: the families expr = expr op atom | atom, expr = expr op expr | atom and the indirect a = b x | y ; b = a z | w with the recursive step memoized (two placements), on all strings over (atom, op, foreign) up to length 7 (quick 6) and random ones up to 200, each batch in a child process with a 4 GiB address-space limit and a watchdog: the property is that parse returns and that the result obeys the ParseResult contract; no claim about which tree. NON-TRIVIAL = a memoized node was entered at least twice at one position, or two distinct memoized nodes were entered at one position, or a memoized node failed; distinct = distinct (sub-check, grammar, input).";
+pub const RULE: &str = "cases = (grammar with memoized() at a random subset of nodes, input). Transparency: C01/C02-class grammars g (with validate emitters in half of the cases, no context / state) and a random subset S of their nodes wrapped in .memoized(), placement weights favouring nested placements (x.memoized() directly inside a memoized node and at its first position), both operands of then / or, memoized nodes inside repetition items, under lookahead and inside recursion; plus templates (each placement shape) x all strings over {a,b,c} up to length L, plus statically typed (non-boxed) templates incl. nested memoized().memoized(), a memoized parser at the first position of another memoized parser, and distinct zero-sized memoized parsers. Oracle (differential): memo(g, S) and g must agree on has_output, output, the number of errors and every error (span, found, expected set, message, contexts), for parse and check. Left recursion: the families expr = expr op atom | atom, expr = expr op expr | atom and the indirect a = b x | y ; b = a z | w with the recursive step memoized (two placements), on all strings over (atom, op, foreign) up to length 7 (quick 6) and random ones up to 200, each batch in a child process with a 4 GiB address-space limit and a watchdog: the property is that parse returns and that the result obeys the ParseResult contract; no claim about which tree. Distinct memoized parsers stored next to each other (elements of a Vec / array / tuple handed to choice, neighbours in a sequence) on 600 / 6000 strings of 8..48 tokens. NON-TRIVIAL = a memoized node was entered at least twice at one position, or two distinct memoized nodes were entered at one position, or a memoized node failed; distinct = distinct (sub-check, grammar, input).";
 
 pub const ASSUMPTIONS: &[&str] = &[
     "the undecorated grammar g is tied to the reference by C01/C05/C06; here only memo(g) == g is compared",
@@ -438,11 +438,19 @@ pub fn run(tier: Tier, seed: u64) -> i32 {
             l.evals += 2;
             l.bump("static_template_runs");
             if memo != plain {
-                let sub = if name.starts_with("KF-a") { "static-aliasing" } else { "static" };
-                let sig = if name.starts_with("KF-a") { format!("C11/memo-key-aliasing/{}", &name[5..]) } else { "C11/static".to_string() };
+                let known = name.starts_with("KF-a");
+                let sub = if known { "static-aliasing" } else { "static" };
+                let sig = if known { format!("C11/memo-key-aliasing/{}", &name[5..]) } else { "C11/static".to_string() };
                 let mut c = Case::new(ID, sub, &G::Empty, toks);
                 c.extra = serde_json::json!({ "template": name });
-                return Err((c, Fail::new(sig, format!("static template {}: memoized {:?} but plain {:?}", name, memo, plain))));
+                let r = Err((c, Fail::new(sig, format!("static template {}: memoized {:?} but plain {:?}", name, memo, plain))));
+                if known {
+                    // the listed aliasing templates: attributed (counted) one by one, so that the templates after them
+                    // are still run on this string
+                    ctx.judge(l, r);
+                    continue;
+                }
+                return r;
             }
         }
         Ok(())
